@@ -401,7 +401,9 @@ func (g *gen) stmtFail(db *MDB, t *MTable) Stmt {
 			if g.r.Chance(0.2) {
 				nm = []string{"sys_pages", "sys_schema"}[g.r.Intn(2)]
 			}
-			return Stmt{Kind: KCreate, Table: nm, Cols: g.genCols(), ViaText: g.r.Chance(0.5)}
+			// same columns: if the table turns out not to exist (a crash image
+			// adopted the state before its CREATE) the statement creates the same table
+			return Stmt{Kind: KCreate, Table: nm, Cols: append([]Col(nil), t.Cols...), ViaText: g.r.Chance(0.5)}
 		}
 		if t == nil {
 			continue
